@@ -77,6 +77,8 @@ def universe(tier):
             if any(tok in g for tok in e.replace("0 + ", "").replace(" + ", ":").split(":")):
                 continue
             forms.append(f"y ~ x + ({e}|{g})")
+    # one effect expression distributed over two grouping factors and coded differently for each
+    forms += ["y ~ x + (0 + f|g + h) + (1|g)", "y ~ x + (1|h) + (0 + f|g + h)", "y ~ (f|g + h)", "y ~ x + (0 + C(k)|g + h) + (1|g)"]
     return sorted(set(forms))
 
 
@@ -161,6 +163,11 @@ def evaluate(formula, d, atoms):
         dm = design_matrices(formula, d)
     except Exception as ex:
         return "raise:" + failure_signature(ex)
+    # the same formula on a frame with other level sets, before this design is read: its labels still describe this frame
+    try:
+        design_matrices(formula, d[(d["f"] != "a") & (d["g"] != "u") & (d["k"] != 5) & (d["c1"] != "mid") & (d["o"] != "hi")].reset_index(drop=True))
+    except Exception:        # noqa: BLE001 - the reduced frame may not support the formula
+        pass
     if dm.common is not None:
         labels = []
         for name, term in dm.common.terms.items():
